@@ -101,6 +101,7 @@ Definition audio_seq_header_cached (s : r2t) : bool :=
 Record tsev := mk_tsev {
   te_nested : bool;            (* emitted by a FlushAudio called from inside the callback of the next event *)
   te_frame : frame;
+  te_dts0 : N;                 (* ghost: frame.Dts before the time stamp filter; never printed *)
   te_cts : N;
   te_boundary : bool;
   te_packets : list bytes;
@@ -117,7 +118,7 @@ Definition on_frame_core (nested : bool) (s : r2t) (f : frame) (cts : N) : r2t *
     else f_key f && (negb (audio_seq_header_cached s) || negb (r_opened s) || negb (audio_cache_empty s)) in
   let f' := with_times f dts pts in
   let (pk, cc') := pack f' in
-  (set_tsf_opened s tf (r_opened s || boundary), mk_tsev nested f' cts boundary pk cc').
+  (set_tsf_opened s tf (r_opened s || boundary), mk_tsev nested f' (f_dts f) cts boundary pk cc').
 
 Definition audio_frame (s : r2t) : frame :=
   mk_frame (r_afirst s) (r_afirst s) (r_acc s) pid_audio sid_audio false (r_acache s).
